@@ -26,6 +26,7 @@ FILEMAP = [
     (r"^internal/parsergen/lr1/", ["C04", "C01", "C05", "C10", "C09"]),
     (r"^internal/lexergen/rang3/", ["C15", "C02", "C10"]),
     (r"^internal/lexergen/", ["C10", "C02", "C08", "C07", "C11", "C15"]),
+    (r"^internal/ast/(char_class)", ["C15", "C17", "C02", "C10"]),
     (r"^internal/ast/(lexer_|term_|macro_|mode)", ["C02", "C15", "C08", "C07", "C17", "C10", "C11"]),
     (r"^internal/ast/parser_", ["C01", "C03", "C17", "C04", "C16"]),
     (r"^internal/ast/", ["C17", "C19", "C12", "C01", "C02"]),
@@ -136,6 +137,9 @@ def regen(wt):
     return 0, ""
 
 
+MAXCHECKS = [99]
+
+
 def run_one(m, wt, outdir, tier="quick"):
     head = subprocess.run(["git", "-C", REPO, "rev-parse", "HEAD"], capture_output=True, text=True).stdout.strip()
     sh(["git", "checkout", "-q", "--detach", head], wt)
@@ -166,7 +170,7 @@ def run_one(m, wt, outdir, tier="quick"):
     if tier == "none":
         r["status"] = "suite-survivor"
         return r
-    for c in checks_for(m["file"]):
+    for c in checks_for(m["file"])[:MAXCHECKS[0]]:
         t0 = time.time()
         env = dict(ENV, VERIF_REPO=wt, VERIF_EVIDENCE_DIR=os.path.join(outdir, "evidence"))
         try:
@@ -199,11 +203,13 @@ def main():
     ap.add_argument("--skip", type=int, default=0)
     ap.add_argument("--stride", type=int, default=1, help="take every stride-th mutant starting at --skip")
     ap.add_argument("--tier", default="quick", help="quick | thorough | none (stop after the suite)")
+    ap.add_argument("--maxchecks", type=int, default=99, help="run at most this many of the mapped checks per mutant")
     ap.add_argument("--only", help="file with mutant ids (one per line or results.jsonl) to restrict to")
     ap.add_argument("--out", default="/tmp/mutants-out")
     ap.add_argument("--wt", default="/tmp/mutrepo")
     a = ap.parse_args()
-    ms = sample(a.seed, a.per_file, a.files)[a.skip::a.stride][:a.max]
+    MAXCHECKS[0] = a.maxchecks
+    ms = sample(a.seed, a.per_file, a.files)
     if a.only:
         ids = set()
         for l in open(a.only):
@@ -215,6 +221,7 @@ def main():
             elif l:
                 ids.add(l)
         ms = [m for m in ms if m["id"] in ids]
+    ms = ms[a.skip::a.stride][:a.max]
     if a.cmd == "list":
         for m in ms:
             print(json.dumps(m))
